@@ -18,6 +18,7 @@ package authenticators
 
 import (
 	"crypto/sha256"
+	"encoding/binary"
 	"encoding/hex"
 	"errors"
 	"io"
@@ -350,6 +351,14 @@ func (a *genericAuthenticator) calculateCacheKey(ctx heimdall.Context, reference
 	digest := sha256.New()
 	digest.Write(a.e.Hash())
 	digest.Write(stringx.ToBytes(reference))
+
+	// the ttl can be redefined on the rule level. An entry stored by an instance with a longer
+	// ttl must not be used by an instance configured with a shorter one beyond that ttl
+	const int64BytesCount = 8
+
+	ttlBytes := make([]byte, int64BytesCount)
+	binary.LittleEndian.PutUint64(ttlBytes, uint64(a.ttl))
+	digest.Write(ttlBytes)
 
 	// the values of the forwarded headers and cookies are part of the request sent to
 	// the endpoint and may influence the response
